@@ -17,6 +17,14 @@ REG = {
         ],
         "trusted_base": ["modelled, not verified: bcrypt (not involved in the decision), yaml.v3 account file round-trip (observed through the code's own loader)"],
     },
+    "C16": {
+        "assumptions": [
+            "YAML documents are modelled as key->bool association lists; yaml.v3 itself (struct marshalling in field order, mapping/sequence decoding) is exercised through the real account manager on every run, not verified",
+            "the translator (translator/main.go) extracts load_table / save_fields / save_tags from hotline/access.go; entries of unexpected shape are emitted as bit 999 and break gen_tables_consistent",
+        ],
+        "trusted_base": ["translator /verif/translator (go/ast): Gen/AccessTables.v is regenerated from /repo on every run",
+                         "reference table coq/Auth/PrivSpec.v transcribed from docs/HLProtocol.pages.pdf (spec/privileges.md)"],
+    },
 }
 
 
